@@ -69,8 +69,12 @@ def r1(R1, cfg, F):
         if ok:
             sw = b.primary_switch(rl[0].dest['l'])
             some = b.variant_edge(sw, 1) if sw is not None else None
-            ok = some is not None and src[0].bb not in b.reachable([some], removed_blocks=[ar[0].bb])
-            why = 'the source is read on the reloader-present edge without recording first'
+            none_edges = [(sw, d) for d, _ in b.edges(sw) if d != some] if sw is not None else []
+            # with a reloader present, every path from the entry to the source access passes the record first
+            # (recording only after a successful access would lose the dependency on an entry whose read failed:
+            #  the asset then never notices that the entry was repaired)
+            ok = some is not None and b.dominates(sw, src[0].bb) and src[0].bb not in b.reachable([0], removed_edges=none_edges, removed_blocks=[ar[0].bb])
+            why = 'with a reloader present the source can be accessed before / without recording the entry'
             if ok:
                 want = [['arg2'], ['arg3']][:nargs - 1]
                 got = [b.access_path(a) for a in ar[0].args[1:nargs]]
